@@ -5,7 +5,8 @@ The scratch copies live under a temp dir outside /repo and /verif and are remove
 import json, os, re, shutil, subprocess, sys, tempfile, glob
 from concurrent.futures import ThreadPoolExecutor
 seeds = sorted(d for d in glob.glob('/verif/seeded/C*') if os.path.isdir(d))
-only = sys.argv[1:]
+own_only = '--own' in sys.argv
+only = [a for a in sys.argv[1:] if not a.startswith('-')]
 def one(d):
     sid = os.path.basename(d)
     w = tempfile.mkdtemp(prefix='seedmx.')
@@ -14,7 +15,8 @@ def one(d):
         p = subprocess.run(f"cd {w} && git apply --whitespace=nowarn {d}/patch.diff", shell=True, capture_output=True, text=True)
         if p.returncode != 0:
             return sid, {"applies": False, "error": p.stderr[:200]}
-        p = subprocess.run(f"/verif/bin/verifchk all --repo {w} 2>&1", shell=True, capture_output=True, text=True)
+        sel_props = f" --props {sid.split('-')[0]}" if own_only else ""
+        p = subprocess.run(f"/verif/bin/verifchk all --repo {w}{sel_props} 2>&1", shell=True, capture_output=True, text=True)
         props, rules, other = set(), set(), []
         for l in p.stdout.splitlines():
             m = re.match(r'VIOLATION property=(C\d+)', l)
@@ -22,11 +24,11 @@ def one(d):
             m = re.match(r'\s+rule=(\S+) construct=(\S+)', l)
             if m: rules.add(m.group(1))
             if re.match(r'(BROKEN|UNDECIDED|VACUOUS)', l): other.append(l[:200])
-        return sid, {"applies": True, "properties": sorted(props), "rules": sorted(rules), "not_decided": other}
+        return sid, {"applies": True, "properties": sorted(props), "rules": sorted(rules), "not_decided": other, **({"own_only": True} if own_only else {})}
     finally:
         shutil.rmtree(w, ignore_errors=True)
 sel = [d for d in seeds if not only or os.path.basename(d) in only]
-with ThreadPoolExecutor(6) as ex:
+with ThreadPoolExecutor(int(os.environ.get('WORKERS', '6'))) as ex:
     res = dict(ex.map(one, sel))
 out = '/verif/seeded/MATRIX.json'
 old = json.load(open(out)) if os.path.exists(out) and only else {}
